@@ -58,6 +58,7 @@ type rpcCall struct {
 	k         int  // stream length
 	size      int  // payload size
 	fail      bool // streaming calls: the handler ends with an application-defined status after streaming
+	pad       []byte // extra request bytes (field 7), not covered by the crc: large requests for back-pressure scenarios
 }
 
 // expected outcome of a call, computed by the harness from the same function the handler uses
@@ -152,6 +153,9 @@ func buildRequest(c rpcCall) (prpc.Request, *rpc.Request, status.Status) {
 		w.Field(6).Bool(true)
 	}
 	w.Field(5).Uint32(crc32.ChecksumIEEE(h[:]))
+	if len(c.pad) > 0 {
+		w.Field(7).Bytes(c.pad)
+	}
 	b, err := w.Build()
 	if err != nil {
 		return prpc.Request{}, nil, status.WrapError(err)
